@@ -48,6 +48,7 @@ def gen(rng, tier):
 
 class C10(Prop):
     id = "C10"
+    track_states = True
     quick_runs = 1500
     thorough_runs = 40000
     assumptions = ["'kept rather than restarted' is checked only when no worker left or died between the beginning "
